@@ -98,8 +98,16 @@ func Finalize(writer io.WriterAt, header carv2.Header, idx *index.InsertionIndex
 	if err != nil {
 		return err
 	}
-	if _, err := index.WriteTo(fi, internalio.NewOffsetWriter(writer, int64(header.IndexOffset))); err != nil {
+	n, err := index.WriteTo(fi, internalio.NewOffsetWriter(writer, int64(header.IndexOffset)))
+	if err != nil {
 		return err
+	}
+	// The index runs to the end of a CARv2. A section write that failed and was stepped back
+	// from may have left bytes beyond the end of the index: drop them where the target allows.
+	if t, ok := writer.(interface{ Truncate(size int64) error }); ok {
+		if err := t.Truncate(int64(header.IndexOffset + n)); err != nil {
+			return err
+		}
 	}
 	if _, err := header.WriteTo(internalio.NewOffsetWriter(writer, carv2.PragmaSize)); err != nil {
 		return err
